@@ -1,9 +1,12 @@
-(* extraction of the executable C08 model (ExtrOcamlBasic only; Z stays the extracted inductive) *)
-From Coq Require Import List ZArith Extraction ExtrOcamlBasic.
-From LN Require Import C08_Defs.
+(* extraction of the executable C08 model: the integer model C08_Defs (Z stays the extracted inductive) and the
+   value-level gradient model C08_Gradient (PrimFloat -> OCaml floats via coq-core.kernel Float64; the section
+   variable atan2 of the gradient model becomes the first argument of flatten_f / select_f / gradient3x3) *)
+From Coq Require Import List ZArith Floats Extraction ExtrOcamlBasic ExtrOCamlFloats.
+From LN Require Import C08_Defs C08_Gradient.
 Extraction Language OCaml.
 Extraction "extracted/c08_model.ml" mask_zero setbit getbit pool_resize pool_visit width resize ds_set ds_get
   cell_addr ds_features ds_feature ds_reader has_target fit column_mapping feature_mapping generator_mapping
   columns features column2feature locate col_offset flags_init apply_op run_ops flag_of get_flag
   select_view enc_flat flat_row check_samples check_feature flatten select encode_view
-  target_row target_dims targets target_select shuffled all_feats desc_dims desc_cols.
+  target_row target_dims targets target_select shuffled all_feats desc_dims desc_cols
+  z2f make_kernel3x3 make_gx make_gy gradient3x3 grad_channel grad_mode grad_image flat_row_f flatten_f select_f.
